@@ -8,6 +8,8 @@ Spec for C19: the Pushgateway's reading of a request path, written from the prop
     empty string; the label name is the segment without the suffix;
   * any other value is URL-unescaped: `+` → space, `%XX` → the byte, everything else its own UTF-8 bytes; the
     bytes must be UTF-8;
+  * no segment is empty: the HTTP server cleans `//` and a trailing `/` out of the path before routing, which is
+    why the Pushgateway introduced `name@base64/=` for the empty value; the decoder rejects an empty segment;
   * a plain (non-base64) value never carries a `/`: the HTTP server unescapes `%2F` before routing, so a
     slash inside a plain segment would have acted as a separator — the decoder rejects such a segment.
 
@@ -93,6 +95,7 @@ def stripSuffix? (suf s : Str) : Option Str :=
 
 /-- one `name/value` pair of segments -/
 def decodePair (k v : Str) : Option (Str × Str) :=
+  if k = [] ∨ v = [] then none else
   match stripSuffix? base64Suffix k with
   | some k' => ((b64decode v).bind utf8Decode?).map (fun t => (k', t))
   | none =>
